@@ -494,13 +494,14 @@ func c09(args []string) int {
 	log.DefaultLogger.SetLogLevel(log.FATAL)
 	log.Proxy.SetLogLevel(log.FATAL)
 	registerProtocols()
-	if len(os.Getenv("VH_MX_PROBE")) > 0 {
-		return mxProbe()
+	if len(os.Getenv("VH_MX_ONLY")) > 0 {
+		c09mx(run)
+		return run.Finish()
 	}
 	if len(os.Getenv("VH_POOL_PROBE")) > 0 {
 		return c09probe(run)
 	}
-	run.Sum.Rule = "histories of pool operations {new stream (connect ok / connection refused / dial time-out / lease without sending), send, response, response with Connection: close, local reset, remote reset, connection close with every close event kind (upstream FIN = RemoteClose, upstream RST = OnReadErrClose, mosn-side LocalClose / OnReadErrClose / OnWriteErrClose / OnWriteTimeout; idle and leased connections), go-away frame, pool Shutdown, external holder of the cluster's Requests resource +/-} against one real pool (HTTP/1 and xprotocol ping-pong) over loopback TCP, max_connections and max_requests in {0,1,2}; exhaustive part: every sequence of ENABLED operations up to the stated depth (stateless DFS), random part: longer histories; books read after every op; a history is non-trivial when it leases at least one stream and contains at least one op other than new/response; distinct by (pool kind, limits, op sequence)."
+	run.Sum.Rule = "histories of pool operations {new stream (connect ok / connection refused / dial time-out / lease without sending), send, response, response with Connection: close, local reset, remote reset, connection close with every close event kind (upstream FIN = RemoteClose, upstream RST = OnReadErrClose, mosn-side LocalClose / OnReadErrClose / OnWriteErrClose / OnWriteTimeout; idle and leased connections), go-away frame, pool Shutdown, external holder of the cluster's Requests resource +/-} against one real pool (HTTP/1 and xprotocol ping-pong) over loopback TCP, max_connections and max_requests in {0,1,2}; exhaustive part: every sequence of ENABLED operations up to the stated depth (stateless DFS), random part: longer histories; books read after every op; a history is non-trivial when it leases at least one stream and contains at least one op other than new/response; distinct by (pool kind, limits, op sequence). Multiplex pool (one slot): histories of {CheckAndInit with dial ok / refused (init goroutine run to completion), NewStream, response, local reset, connection close of every kind, go-away frame, Shutdown, external Requests holder}, exhaustive over the enabled ops to depth 5 (7 thorough) for max_requests in {0,1,2} plus random histories of 8-30(40) ops; every op under a 4 s watchdog (a call that never returns is a finding)."
 
 	var cfgs []poolCfg
 	for _, k := range []poolKind{kHTTP1, kPingPong} {
@@ -632,6 +633,7 @@ func c09(args []string) int {
 		}
 	}
 	sh.Close()
+	c09mx(run)
 	run.Sum.Exhaustive = false
 	run.Sum.Extra["c09_exhaustive_depth"] = depth
 	run.Sum.Extra["c09_histories"] = len(results)
